@@ -128,7 +128,7 @@ package signal
 //@   ensures[wf] wf(result)
 //@   ensures[parent-unchanged] heapSame(b) && hdrSameExcept(result) && brk(b) == old(brk(b))
 //@   ensures[allocs: C18] allocs <= old(allocs) + 1
-//@   modifies hdr(b) obj(b) allocs
+//@   modifies newhdr(b) obj(b) allocs
 
 //@ func Buffer.AppendSample(b, v)
 //@   props C04 C12
@@ -536,7 +536,7 @@ package signal
 //@   ensures[others-untouched: C13 C10] heapSameBelow(result) && hdrSameExcept(result)
 //@   ensures[allocs] allocs == old(allocs) + 2
 //@   ensures[inert: C20] (a.Channels == 0 || a.Capacity == 0) ==> len(result.data) == 0 && cap(result.data) == 0
-//@   modifies H(T) hdr(T) brk(T) obj(T) allocs
+//@   modifies H(T) newhdr(T) brk(T) obj(T) allocs
 
 // ---------------------------------------------------------------------------
 // Append
@@ -713,7 +713,7 @@ package signal
 //@   ensures[hit-or-miss: C10 C11 C18] (old(inPool(p.pool, result)) && heapSame(T) && hdrSame(T) && allocs == old(allocs))
 //@     | || (fresh(result) && freshStorage(result) && heapSameBelow(T) && hdrSameExcept(result))
 //@   ensures[pool-invariant: C10 C11] forallBuf(b, T, inPool(p.pool, b) ==> old(inPool(p.pool, b)) && pristine(b, p.alloc))
-//@   modifies H(T) hdr(T) brk(T) obj(T) allocs pool
+//@   modifies H(T) newhdr(T) brk(T) obj(T) allocs pool
 
 //@ func PoolAllocator.Put(p, b)
 //@   props C10 C11
